@@ -29,7 +29,8 @@ DEFAULT = {"http": 80, "https": 443, "ws": 80, "wss": 443}
 SERVERS = [("h", "d"), ("h", 8000), ("h", 80), ("h", 443), ("svc.internal", 443), ("svc.internal", 80), ("example.org", "d"), ("10.0.0.1", "d"), ("10.0.0.1", 81), ("::1", "d"), ("::1", 8000), ("2001:db8::7", 8443), ("h", "none"), ("::1", "none")]
 HOSTS = [None, "example.com", "example.com:80", "example.com:8080", "[::1]", "[::1]:8000", "EXAMPLE.com", "a.b:443"]
 ROOTS = ["", "/r", "/r/é"]
-PATHS = ["/", "/r", "/r/x", "/r/é/y", "/a", "/a/b", "/é", "/a b", "/a;b", "/a:b@c", "/~x", "", "/a//b", "//x", "/%41", "/a&b=c", "/a+b", "/中/文", "/a'(b)*!$,"]
+PATHS = ["/", "/r", "/r/x", "/r/é/y", "/a", "/a/b", "/é", "/a b", "/a;b", "/a:b@c", "/~x", "", "/a//b", "//x", "/%41", "/a&b=c", "/a+b", "/中/文", "/a'(b)*!$,",
+         "/go/https://example.org/a", "/x://y", "/http://h/", "/a@b:1/c", "/[::1]/x", "/a\\b"]
 ODD_PATHS = ["/a?b", "/a#b", "/?", "/#", "/a?b#c", "/a\tb", "/a\nb", "/a\rb"]
 QUERIES = ["", "a=1", "a=1&b=%20", "é=1", "a=b=c", "?", "a=1?b", "x", "a=&b", "a=1&a=2", "%E4%B8%AD=1", "q=a+b"]
 
@@ -337,6 +338,13 @@ def check_query_helpers(ctx, rng):
 
 def run(ctx):
     rng = ctx.rng("c18")
+    # ---- the FIRST use in a fresh server process, pre-empted by a second request (one child process per switch point, vf/firstuse.py)
+    if ctx.shard == 0:
+        from vf import firstuse
+        firstuse.explore(ctx, "request-url", "request.url", max_points=12 if ctx.quick else 400)
+        ctx.case(("first-use", "request-url"))
+    else:
+        ctx.mon("first-use-pre-empted(fresh process)", 0)
     idx = 0
     combos = list(itertools.product(DEFAULT, SERVERS, HOSTS, ROOTS))
     rng.shuffle(combos)  # a process-wide cache must not depend on which scheme saw a server address first
@@ -364,6 +372,17 @@ def run(ctx):
         case = check_derived(ctx, rng)
         ctx.case(repr(case))
     ctx.sample("request-url", {"scheme": "https", "server": ("::1", 8000), "host": None, "root": "/r/é", "path": "/a b", "query": "a=1&b=%20"})
+    # ---- two requests' URLs reconstructed at the same time by two server threads (placed thread switches, vf/inflight.py)
+    from vf import inflight
+    pre = inflight.Preemptor()
+    try:
+        for g in range(ctx.scale(8, 300)):
+            specs = [(rng.choice(["http", "https"]), (rng.choice(["srv.internal", "10.0.0.7", "::1"]), rng.choice([80, 443, 8000])), rng.choice([None, "a.example", "b.example:8443"]),
+                      rng.choice(["", "/r"]), "/p%d/é" % (g * 2 + j), rng.choice(["", "a=%d" % j])) for j in range(2)]
+            preempted_pair(ctx, pre, specs)
+            ctx.case(("pre-empted", g, ctx.shard))
+    finally:
+        pre.close()
     # ---- replace
     idx = 0
     maxr = 2 if ctx.quick else 3
@@ -395,7 +414,42 @@ def run(ctx):
             ctx.sample("query-helper", case)
 
 
+def url_apps():
+    """applications that answer with the URL they were asked for, as request.url reconstructs it"""
+    from baize import asgi, wsgi
+
+    def wapp(environ, start_response):
+        u = wsgi.Request(environ).url
+        start_response("200 OK", [("Content-Type", "text/plain")])
+        return [repr((str(u), u.scheme, u.hostname, u.port, u.path, u.query)).encode()]
+
+    async def aapp(scope, receive, send):
+        u = asgi.Request(scope, receive, send).url
+        await send({"type": "http.response.start", "status": 200, "headers": [(b"content-type", b"text/plain")]})
+        await send({"type": "http.response.body", "body": repr((str(u), u.scheme, u.hostname, u.port, u.path, u.query)).encode()})
+    return {"wsgi": wapp, "asgi": aapp}
+
+
+def preempted_pair(ctx, pre, specs):
+    """two servers threads reconstruct request.url at the same time: a thread switch placed between two library lines"""
+    from vf import inflight
+    apps = url_apps()
+    reqs = [drivers.Req(path=path.encode("utf-8"), root=root.encode("utf-8"), query=query.encode("utf-8"), headers=[("Host", host)] if host else [],
+                        scheme=scheme, server=tuple(server)) for scheme, server, host, root, path, query in specs]
+    for iface in ("wsgi", "asgi"):
+        inflight.check_preempted(ctx, pre, iface, apps[iface], reqs[0], reqs[1], "request.url", {"preempted_pair": [list(x) for x in specs]})
+
+
 def replay(ctx, case):
+    if "preempted_pair" in case:
+        from vf import inflight
+        pre = inflight.Preemptor()
+        try:
+            preempted_pair(ctx, pre, [tuple(x) for x in case["preempted_pair"]])
+        finally:
+            pre.close()
+        ctx.case(1)
+        return
     if "scheme" in case:
         check_request_url(ctx, case["scheme"], tuple(case["server"]), case["host"], case["root"], case["path"], case["query"],
                           odd=any(c in case["path"] for c in "?#\t\r\n"))
